@@ -15,6 +15,9 @@
 (*                                                                         *)
 (* node kinds: "list" "dict" "set" (mutable, flagged)                      *)
 (*             "tuple" "struct" "default" "closure" "mutclosure" "bound"   *)
+(*             "rebclosure": a closure that the host froze EARLY (while    *)
+(*             its defining function was still running) and whose captured *)
+(*             variable was rebound to the child afterwards                *)
 (*             (one child fixed at creation; "struct" and the cell of a    *)
 (*             closure are flagged)                                        *)
 (* edges added later: list element, dict value (a -> b, any b, cycles ok), *)
@@ -25,8 +28,8 @@ EXTENDS Integers, Sequences, FiniteSets, TLC, Json
 CONSTANTS MaxNodes, MaxEdges
 
 Mutable == {"list", "dict", "set"}
-Composite == {"tuple", "struct", "default", "closure", "mutclosure", "bound"}
-Flagged == Mutable \cup {"struct", "closure", "mutclosure"}   \* closure: the flag of its cell
+Composite == {"tuple", "struct", "default", "closure", "mutclosure", "rebclosure", "bound"}
+Flagged == Mutable \cup {"struct", "closure", "mutclosure", "rebclosure"}   \* closure: the flag of its cell
 
 VARIABLES kind,      \* sequence of node kinds, node n = kind[n]
           edges,     \* set of <<a, b>>
@@ -75,7 +78,7 @@ NumEdges == Cardinality({i \in 1..Len(hist) : IsEdge(hist[i])})
 \* hashable nodes can be dict keys and set elements: functions and bound methods are hashable and
 \* reach mutable values through defaults, closure cells and receivers; a tuple is hashable if its element is
 RECURSIVE HashableNode(_)
-HashableNode(n) == CASE kind[n] \in {"default", "closure", "mutclosure", "bound"} -> TRUE
+HashableNode(n) == CASE kind[n] \in {"default", "closure", "mutclosure", "rebclosure", "bound"} -> TRUE
                      [] kind[n] = "tuple" -> \A c \in Succ(n) : HashableNode(c)
                      [] OTHER -> FALSE
 KeyEdgeList == {e \in Nodes \X Nodes : kind[e[1]] \in {"dict", "set"} /\ HashableNode(e[2])}
